@@ -17,8 +17,10 @@ CONSTANTS Kind, MaxHist
 
 VARIABLES par,      \* [Params -> value id]
           cache,    \* [Caches -> <<>> (cleared) or <<snapshot of the parameters it was computed from>>]
+          used,     \* ghost: reads that keep nothing (calibrate) made since the last parameter change - part of the explored
+                    \* state, so that "read, then change" histories are distinct from "change" alone
           outcome, hist
-vars == <<par, cache, outcome, hist>>
+vars == <<par, cache, used, outcome, hist>>
 
 Params == CASE Kind = "spectrometer"  -> {"w2p", "mbp", "name"}
             [] Kind = "czerny"        -> {"order", "grating", "focal", "spacing", "angle", "acc", "mbp", "name"}
@@ -49,12 +51,13 @@ Proj(c, pr) == [p \in Dep(c) |-> pr[p]]
 Eager == IF Kind = "czerny" THEN {"w2p"} ELSE {}
 
 \* public read-outs and the settings each one needs
-Getters == {"spectral", "classes", "kwargs", "create_pipelines"}
-Fills(g) == IF g = "create_pipelines" THEN {"classes", "kwargs"} ELSE {g}
+\* calibrate(spectrum) (spectrometers only) reads the pixel arrays and keeps nothing
+Getters == {"spectral", "classes", "kwargs", "create_pipelines"} \cup (IF Kind = "polychromator" THEN {} ELSE {"calibrate"})
+Fills(g) == IF g = "create_pipelines" THEN {"classes", "kwargs"} ELSE IF g = "calibrate" THEN {} ELSE {g}
 
 Init == /\ par \in [Params -> {1}] \cup [Params -> {2}]
         /\ cache = [c \in Caches |-> IF c \in Eager THEN <<Proj(c, par)>> ELSE <<>>]
-        /\ outcome = "ok"
+        /\ outcome = "ok" /\ used = {}
         /\ hist = <<[op |-> "init", par |-> par]>>
 
 Log(e) == hist' = Append(hist, e)
@@ -75,19 +78,19 @@ Clears(p) == CASE Kind = "spectrometer" ->
 Set(p, v) ==
     /\ par' = [par EXCEPT ![p] = v]
     /\ cache' = [c \in Caches |-> IF c \in Clears(p) THEN (IF c \in Eager THEN <<Proj(c, par')>> ELSE <<>>) ELSE cache[c]]
-    /\ outcome' = "ok"
+    /\ outcome' = "ok" /\ used' = {}
     /\ Log([op |-> "set", p |-> p, v |-> v])
 
 \* instrument.<p> = <invalid>: ValueError, nothing changes
 SetInvalid(p, v) ==
     /\ outcome' = "ValueError"
-    /\ UNCHANGED <<par, cache>>
+    /\ UNCHANGED <<par, cache, used>>
     /\ Log([op |-> "set", p |-> p, v |-> v])
 
 \* reading a setting: computed from the current parameters if it was cleared
 Get(g) ==
     /\ cache' = [c \in Caches |-> IF c \in Fills(g) /\ cache[c] = <<>> THEN <<Proj(c, par)>> ELSE cache[c]]
-    /\ outcome' = "ok"
+    /\ outcome' = "ok" /\ used' = (IF Fills(g) = {} THEN used \cup {g} ELSE used)
     /\ UNCHANGED par
     /\ Log([op |-> "get", g |-> g])
 
@@ -139,7 +142,7 @@ Exact == Kind \in {"spectrometer", "polychromator"}
 RangeCovers == Exact => \A iv \in Intervals(par) : ExpMin2(par) <= iv[1] /\ iv[2] <= ExpMax2(par)
 BinWidthBound == Exact => (ExpMax2(par) - ExpMin2(par)) * MinBins(par) <= Narrowest2(par) * ExpBins(par)
 
-View == <<par, cache, outcome>>
+View == <<par, cache, used, outcome>>
 Emit == PrintT(ToJson([h |-> hist', par |-> par', outcome |-> outcome',
                        exact |-> IF Exact THEN <<ExpMin2(par'), ExpMax2(par'), ExpBins(par')>> ELSE <<>>]))
 =============================================================================
